@@ -148,6 +148,9 @@ type Unit struct {
 	litScope    *ast.FuncLit
 	letWitness  int
 	inDefer     int
+	witMemo     map[string]Val
+	witnessHint types.Type
+	witnessTyp  types.Type
 	curPos      token.Pos
 }
 
